@@ -334,6 +334,14 @@ class LazyMeta(ht.MetadataNode):
         return TF(self.payload_recipes, self.ret).tagify()
 
 
+class HtmlDunderTF(TF):
+    """Tagifiable that also follows the `__html__()` convention of template engines (no _repr_html_): un-expanded, it is an
+    un-expanded object."""
+
+    def __html__(self):
+        return "<b>markup for a template engine</b>"
+
+
 class StoredTF(TF):
     """Tagifiable that builds its (already tagified) result once and hands out that same object every time."""
 
@@ -541,6 +549,8 @@ def _build(r):
             return SeqTF(r["c"], r.get("ret", "list"))
         if r.get("as") == "stored":
             return StoredTF(r["c"], r.get("ret", "list"))
+        if r.get("as") == "htmldunder":
+            return HtmlDunderTF(r["c"], r.get("ret", "list"))
         if r.get("as") == "sublist":
             return SubListTF(r["c"], "list")
         return TF(r["c"], r.get("ret", "list"))
